@@ -228,3 +228,108 @@ def c15_continuation_nulls(case, out):
     if not sig.startswith(("list_length|", "element|", "map_size|", "map_value|", "map_key|", "null_row|", "row_type|")):
         return False
     return _continuation_of_nulls(case)
+
+
+@predicate
+def c11_bitpacked_width(case, out):
+    """cencoding.read_bitpacked holds < 32 bits of state: widths >= 25 lose the top bits of some values."""
+    return case.get("f") == "read_bitpacked" and case.get("width", 0) >= 25 and out["sig"].startswith(("read_bitpacked|value", "read_bitpacked|consumed", "crash"))
+
+
+@predicate
+def c11_delta_width(case, out):
+    """cencoding.delta_read_bitpacked: widths >= 29 decode wrongly (int8 bit counters), the largest ones read out of bounds."""
+    return case.get("f") == "delta" and case.get("width", 0) >= 29 and out["sig"].startswith(("delta|value", "delta|raised", "delta|overrun", "crash", "hang"))
+
+
+@predicate
+def c11_encode_width(case, out):
+    """cencoding.encode_bitpacked accumulates in a 32-bit int: widths >= 25 produce streams that do not decode to the input."""
+    return case.get("f") == "encode" and case.get("width", 0) >= 25 and out["sig"].startswith("encode_rle_bp|value|w>=25")
+
+
+def _c12_inner(case):
+    return case.get("src"), case.get("case") or {}
+
+
+def _c12_delta_pages(inner):
+    """[(non-null values in page)] for DELTA_BINARY_PACKED pages of a C03 plan."""
+    out = []
+    for rg in inner.get("plan", {}).get("row_groups", []):
+        for name, cp in rg.get("chunks", {}).items():
+            rows = rg["data"].get(name, [])
+            pos = 0
+            pages = cp.get("pages", [])
+            for i, p in enumerate(pages):
+                cnt = (len(rows) - pos) if (p.get("n") is None or i == len(pages) - 1) else min(p["n"], len(rows) - pos)
+                if p.get("encoding") == "DELTA_BINARY_PACKED":
+                    out.append(sum(1 for v in rows[pos:pos + cnt] if v is not None))
+                pos += cnt
+    return out
+
+
+@predicate
+def c12_to_bytes_overflow(case, out):
+    src, inner = _c12_inner(case)
+    sig = out["sig"]
+    return src == "C10" and bool(inner.get("allow_big")) and any(f in sig for f in ("write_thrift", "write_list", "to_bytes", "crash"))
+
+
+@predicate
+def c12_delta_width(case, out):
+    src, inner = _c12_inner(case)
+    sig = out["sig"]
+    if not any(f in sig for f in ("delta_read_bitpacked", "delta_binary_unpack", "NumpyIO_write_int", "NumpyIO_write_long", "NumpyIO_read_byte", "crash")):
+        return False
+    if src == "C11":
+        return inner.get("f") == "delta" and inner.get("width", 0) >= 29
+    if src == "C03":
+        from vf.finding_predicates import _c03_features
+        return max(_c03_features(inner).get("delta_widths") or [0]) >= 29
+    return False
+
+
+@predicate
+def c12_bitpacked_width(case, out):
+    src, inner = _c12_inner(case)
+    sig = out["sig"]
+    if not any(f in sig for f in ("read_bitpacked", "_mask_for_bits", "encode_bitpacked")):
+        return False
+    if src == "C11":
+        return inner.get("f") in ("read_bitpacked", "encode") and inner.get("width", 0) >= 25
+    if src == "C03":
+        from vf.finding_predicates import _c03_features
+        return (_c03_features(inner).get("max_dict_bit_width") or 0) >= 25
+    return False
+
+
+@predicate
+def c12_delta_single_value(case, out):
+    """delta_binary_unpack always reads a block header (min delta, bit widths) after the page header, also when
+    the page holds a single value and no block follows: reads one to a few bytes past the page buffer."""
+    src, inner = _c12_inner(case)
+    sig = out["sig"]
+    if "READ" not in sig or not any(f in sig for f in ("read_unsigned_var_int", "delta_binary_unpack", "NumpyIO_read")):
+        return False
+    if src == "C03":
+        return any(n <= 1 for n in _c12_delta_pages(inner))
+    if src == "C11":
+        return inner.get("f") == "delta"
+    return False
+
+
+@predicate
+def c12_bitpacked_truncated_group(case, out):
+    """read_bitpacked fetches whole groups: a final bit-packed group cut at the page end (Impala) is read 1 byte past the buffer."""
+    src, inner = _c12_inner(case)
+    if src != "C03" or "read_bitpacked" not in out["sig"] or "READ" not in out["sig"]:
+        return False
+    return any(p.get("truncate_last_group") for rg in inner.get("plan", {}).get("row_groups", [])
+               for cp in rg.get("chunks", {}).values() for p in cp.get("pages", []))
+
+
+@predicate
+def c12_delta_empty_page(case, out):
+    src, inner = _c12_inner(case)
+    return src == "C03" and any(n == 0 for n in _c12_delta_pages(inner)) and \
+        any(f in out["sig"] for f in ("delta", "read_unsigned_var_int", "NumpyIO", "crash"))
